@@ -166,6 +166,11 @@ fn main() {
                 mdwh::dumprun::run_scenario(&scn, &workdir, &mut tr);
             }
         }
+        "memread" => {
+            let workdir = flag_str(&args.extra, "--workdir").unwrap_or_else(|| "/tmp".into());
+            let cases: Vec<Value> = read_histories(&args.input).into_iter().flatten().collect();
+            mdwh::memread::run(&cases, args.random, args.seed, &workdir, &mut tr);
+        }
         "flood" => {
             let workdir = flag_str(&args.extra, "--workdir").unwrap_or_else(|| "/tmp".into());
             let rounds = flag_val(&args.extra, "--rounds").unwrap_or(1);
